@@ -95,6 +95,15 @@ class D(Driver):
                 for p in t:
                     if any(c.startswith("skip") for c in p.split("/")[-1:]) and p not in made[side]:
                         vs.append(viol("declined-name-synced", "%s:%s" % ("LR"[side], p), obs))
+            # "left alone on both sides": renaming a synced object to a declined name does not remove its peer
+            for side, op, ok in w.user_log:
+                if ok and op[0] == "rename" and not op[1].startswith("/") and not _skip(op[1]) and _skip(op[2]):
+                    other = 1 - side
+                    if any(s_ == other and k_ and any(isinstance(x, str) and (x == op[1] or op[1].startswith(x + "/"))
+                                                     for x in o_[1:3]) for s_, o_, k_ in w.user_log):
+                        continue
+                    if op[1] not in (tl, tr)[other]:
+                        vs.append(viol("declined-rename-removed-peer", "%s:%s" % ("LR"[other], op[1]), obs))
         else:
             a, b = tl, tr
         renames_skip = skip and any(op[0] == "rename" and (_skip(op[1]) or _skip(op[2])) for sc in w.scripts for op in sc)
@@ -165,7 +174,8 @@ def jobs(tier):
         # custom translate declining names that start with 'skip'
         sk = [[[s], []] for s in SKIP[:3]] + [[[], [s]] for s in SKIP[:3]]
         sk += [[[SKIP[0], SKIP[3]], []], [[SKIP[0], SKIP[4]], []], [[SKIP[1], SKIP[5]], []], [[], [SKIP[0], SKIP[3]]],
-               [[], [SKIP[1], SKIP[5]]], [[SKIP[0]], [SKIP[0]]], [[SKIP[2]], [["write", "a"]]]]
+               [[], [SKIP[1], SKIP[5]]], [[SKIP[0]], [SKIP[0]]], [[SKIP[2]], [["write", "a"]]],
+               [[["rename", "d/b", "d/skipb"]], []], [[], [["rename", "d", "skipd"]]], [[["write", "a"], SKIP[2]], []]]
         for sc in sk:
             st = A.stamp(sc)
             out.append({"prop": PROP, "cfg": cfg, "order": "asc", "base": "B1", "scripts": st,
